@@ -36,6 +36,7 @@ bool cmd_option_exists(char **begin, char **end, const std::string &option)
 
 void read_affinity_data(const boost::filesystem::path &filename,
                         const bool &assortative,
+                        const size_t &nof_groups,
                         std::vector<double> &w)
 {
     std::ifstream in(filename.string());
@@ -47,10 +48,20 @@ void read_affinity_data(const boost::filesystem::path &filename,
 
     std::cout << "Reading affinity file " << filename << std::endl;
 
+    // Expected dimensions: w has been sized from the number of groups and the adjacency data
+    const size_t layer_size = assortative ? nof_groups : nof_groups * nof_groups;
+    if (layer_size == 0 || w.size() % layer_size != 0)
+    {
+        throw std::runtime_error(
+            std::string("In read_affinity_data, inconsistent affinity size ") + std::to_string(w.size()) +
+            " for " + std::to_string(nof_groups) + " groups");
+    }
+    const size_t expected_nof_layers = w.size() / layer_size;
+
     std::string line;
 
-    // First parse the file to get dimensions
-    size_t nof_groups(0), nof_layers(0);
+    // First parse the file to check dimensions
+    size_t nof_layers(0);
     std::string tok;
     double value;
     while (!in.eof())
@@ -69,9 +80,8 @@ void read_affinity_data(const boost::filesystem::path &filename,
         std::istringstream is(line);
         size_t current_nof_groups(0);
 
-        // First character - could be # or layer id
-        is >> tok;
-        if (tok == "#")
+        // First character - could be # or layer id; skip blank lines and comments
+        if (!(is >> tok) || tok == "#")
         {
             continue;
         }
@@ -81,12 +91,19 @@ void read_affinity_data(const boost::filesystem::path &filename,
         {
             current_nof_groups++;
         }
-        if (nof_groups == 0)
+        if (current_nof_groups != nof_groups)
         {
-            nof_groups = current_nof_groups;
+            throw std::runtime_error(
+                std::string("In read_affinity_data, expected ") + std::to_string(nof_groups) +
+                " values per layer, got " + std::to_string(current_nof_groups) + " in " + filename.string());
         }
-        assert(current_nof_groups = nof_groups);
         nof_layers++;
+    }
+    if (nof_layers != expected_nof_layers)
+    {
+        throw std::runtime_error(
+            std::string("In read_affinity_data, expected ") + std::to_string(expected_nof_layers) +
+            " layers, got " + std::to_string(nof_layers) + " in " + filename.string());
     }
 
     // Now build vector...
@@ -97,23 +114,34 @@ void read_affinity_data(const boost::filesystem::path &filename,
     {
         std::getline(in, line);
         if (line.size() == 0)
-            continue; // skip over empty lines and comments
+            continue; // skip over empty lines
 
         // Remove trailing whitespaces
         line.erase(line.find_last_not_of(" ") + 1);
 
         std::istringstream is(line);
 
+        // skip blank lines and comments
+        if (!(is >> tok) || tok == "#")
+        {
+            continue;
+        }
+
         // Layer ID
         size_t layer;
-        is >> layer;
+        std::istringstream is_layer(tok);
+        if (!(is_layer >> layer) || layer >= nof_layers)
+        {
+            throw std::runtime_error(
+                std::string("In read_affinity_data, invalid layer id '") + tok + "' in " + filename.string());
+        }
 
         // Groups values - only diagnoal terms
-        size_t group(1), index(0);
+        size_t group(0), index(0);
         while (is >> value)
         {
-            index = assortative ? group
-                                : group * group - 1 + layer * nof_groups * nof_groups;
+            index = assortative ? group + layer * nof_groups
+                                : group + group * nof_groups + layer * nof_groups * nof_groups;
             w[index] = value;
             group++;
         }
